@@ -12,7 +12,7 @@ ITEM_CAP = {"quick": 120, "thorough": 600}
 FUNCS = ["qlasskit.decompiler.decompiler.Decompiler.decompile", "Decompiler.__exps_of_section", "DecompiledSection / DecompilerResults", "qlasskit.qcircuit.qcircuit.QCircuit.copy(vanilla=True), get_key_by_index"]
 BOUNDS = {
     "quick": "every gate sequence of length <= 3 on 3 qubits over {X(3), CX(6), CCX(3), H(3), barrier} (16 symbols) + seed slice of the length-4 sequences + 300 fixed-seed circuits on 3-5 qubits over the full gate set; section-entry basis state symbolic",
-    "thorough": "every sequence of length <= 4 (69 905 circuits) + 1500 fixed-seed circuits over the full gate set incl. MCX, I, Z/S/T/CZ/CP/SWAP separators and compiled corpus functions",
+    "thorough": "every sequence of length <= 4 (69 905 circuits) + 1500 fixed-seed circuits over the full gate set incl. MCX, I, Z/S/T/CZ/CP/SWAP separators and compiled corpus functions (control-flow corpus and the self-reassignment family, both optimizer profiles, circuits of <= 250 gates)",
 }
 OUTSIDE = "circuits are enumerated; the range check accepts extra barriers inside a section's index range (only non-barrier gates must match the run exactly)"
 ASSUMPTIONS = ["classical gate semantics table of engine A", "a 'maximal run' is computed independently from the gate list: consecutive X/CX/CCX/MCX/I gates, barriers skipped, any other gate ends the run"]
@@ -165,9 +165,9 @@ def make_items(tier, seed):
     # compiled corpus functions
     from .. import corpus
 
-    progs = [p[1] for p in corpus.u_ctl()[:: (2 if tier == "thorough" else 6)] if corpus.size_ok(p[1], 10, 60)]
+    progs = [p[1] for p in corpus.u_ctl() if corpus.size_ok(p[1], 10, 60)] + [p[1] for p in corpus.u_selfif()[:: (1 if tier == "thorough" else 3)]]
     for i in range(0, len(progs), 6):
-        items.append({"fam": "compiled", "progs": progs[i : i + 6]})
+        items.append({"fam": "compiled", "progs": progs[i : i + 6], "opt": "fast" if (i // 6) % 2 else "default"})
     if tier == "thorough":
         return items
     extra = [dict(b, fam="enum", nq=3) for b in circorp.enum_batches(A, 2, 2)]
@@ -205,8 +205,14 @@ def check_item(spec):
         circs = []
         for src in spec["progs"]:
             try:
-                qf = qlassf(src, to_compile=True)
-                circs.append((src.split("\n")[1].strip(), qf.circuit()))
+                if spec.get("opt") == "fast":
+                    from qlasskit.boolopt import fastOptimizer
+
+                    qf = qlassf(src, to_compile=True, bool_optimizer=fastOptimizer)
+                else:
+                    qf = qlassf(src, to_compile=True)
+                if qf.circuit().num_gates <= 250:  # stated bound for the compiled family
+                    circs.append((src.split("\n")[1].strip(), qf.circuit()))
             except Exception:
                 continue
     else:
